@@ -31,15 +31,23 @@ def gen_case(rng, maxops=15, restart=True):
     served = {}      # (kind, ns, name) -> (uid, host)
     ops = []
 
+    last = {}        # (kind, ns, name) -> (uid, host) of the most recent add, served or not
+
     def add(kind, ns, name):
-        uid[0] += 1
-        if kind == "t":
-            host = ("h%d.ex" % uid[0]) if rng.chance(1, 2) else "_"
-            ops.append("at|%s|%s|%d|%s" % (ns, name, uid[0], host))
-            served[(kind, ns, name)] = (uid[0], host)
+        # one add in three of a resource seen before is a re-apply of the very same object (same uid, hence byte-identical
+        # generated content): delete-then-re-add and idempotent re-apply must leave the file in place (seed C10-3)
+        if (kind, ns, name) in last and rng.chance(1, 3):
+            u, host = last[(kind, ns, name)]
         else:
-            ops.append("a%s|%s|%s|%d" % (kind, ns, name, uid[0]))
-            served[(kind, ns, name)] = (uid[0], None)
+            uid[0] += 1
+            u = uid[0]
+            host = (("h%d.ex" % u) if rng.chance(1, 2) else "_") if kind == "t" else None
+        last[(kind, ns, name)] = (u, host)
+        if kind == "t":
+            ops.append("at|%s|%s|%d|%s" % (ns, name, u, host))
+        else:
+            ops.append("a%s|%s|%s|%d" % (kind, ns, name, u))
+        served[(kind, ns, name)] = (u, host)
 
     n = 3 + rng.below(maxops - 2)
     rs_at = rng.below(n) if restart and rng.chance(1, 3) else -1
@@ -53,7 +61,10 @@ def gen_case(rng, maxops=15, restart=True):
                     add(*k)
             continue
         r = rng.below(10)
-        if r < 6 or not served:
+        gone = sorted(k for k in last if k not in served)
+        if gone and rng.chance(1, 4):
+            add(*rng.choice(gone))                      # bring back something that was deleted
+        elif r < 6 or not served:
             add(rng.choice(["i", "v", "t"]), rng.choice(NSS), rng.choice(NAMES))
         elif r < 9:
             k = rng.choice(sorted(served))
